@@ -328,12 +328,36 @@ func (x *Exec) atReturn(fr *Frame, c *Contract, entry, st *State, params, result
 					}
 				}
 				_ = x.guard("modifies", func() {
+					if me.Op == "call" && me.Args[0].Op == "ident" && me.Args[0].Name == "hdr" {
+						// the header of a slice-typed field (not its cells)
+						if loc := ecm.evalLoc(me.Args[1]); loc != nil && !loc.Obj.Array {
+							exempt[loc.Obj] = append(exempt[loc.Obj], loc.Path)
+						}
+						return
+					}
 					v := ecm.Eval(me)
 					switch lv := v.V.(type) {
 					case *SliceV:
 						allowed[lv.Obj] = lv
+						var nest func(o *Object, off, ln *Term)
+						nest = func(o *Object, off, ln *Term) {
+							for _, no := range o.Nested {
+								sh := x.tb.BVi(64, nestShift)
+								noff, nln := x.tb.BVBin("bvshl", off, sh), x.tb.BVBin("bvshl", ln, sh)
+								allowed[no] = &SliceV{Obj: no, Off: noff, Len: nln}
+								nest(no, noff, nln)
+							}
+						}
+						nest(lv.Obj, lv.Off, lv.Len)
 					case *PtrV:
-						whole[lv.Obj] = true
+						var all func(o *Object)
+						all = func(o *Object) {
+							whole[o] = true
+							for _, no := range o.Nested {
+								all(no)
+							}
+						}
+						all(lv.Obj)
 					default:
 						// a field of a single object: exempt that path only
 						if loc := ecm.evalLoc(me); loc != nil && !loc.Obj.Array {
@@ -386,6 +410,9 @@ func (x *Exec) atReturn(fr *Frame, c *Contract, entry, st *State, params, result
 			for _, me := range m.Exprs {
 				me := me
 				_ = x.guard("modifies", func() {
+					if me.Op == "call" && me.Args[0].Op == "ident" && me.Args[0].Name == "hdr" {
+						return
+					}
 					if pv, ok := ecl.tryEvalPtr(me); ok {
 						listed[bbKey(pv)] = true
 					} else {
